@@ -243,6 +243,7 @@ EXTRA8 = {
     "C17": " Wave 8: the push source may book a timer of its own in its start hook; pushes before that time must not make the loop forget it.",
 }
 EXTRA10 = {
+    "C18": " Wave 10: the graph-level histories also run with the scheduler nodes inside a nested child graph.",
     "C03": " Wave 10: wiring-time passive tags also on inputs of the real static nodes.",
     "C05": " Wave 10: duration windows - a push that prunes nothing leaves no removed value to read; a dynamic-list mode (several elements per cycle: delta_value, capture_delta and modified_items list exactly the written indices).",
     "C09": " Wave 10: the application's own argument tagged passive(...) (known finding F33).",
